@@ -24,6 +24,7 @@ import Kap.Proofs.C13Lit
 import Kap.Proofs.C13Image
 import Kap.Proofs.C13Mono
 import Kap.Proofs.C13LexAtoms
+import Kap.Proofs.C13Prog
 
 namespace Kap.Props.C13
 open Kap.C13 Kap.C13.Gen
@@ -238,6 +239,40 @@ example : LexWF (.bin .TokenMult (.call "f" [.bin .TokenOr (.id "a") (.lit (.boo
   exact ⟨⟨identLexCall_of_ok _ identOK_f, ⟨identLex_of_ok _ identOK_a, atomLex_bool true⟩, trivial⟩,
     identLex_of_ok _ identOK_a, identLex_of_ok _ identOK_b⟩
 
+/-! ## Statement level: programs -/
+
+/-- `parse_format_program`: for every well-formed program – `var` declarations of expressions, lambdas, lists and
+chains, typed (template) vars, `dbrp`, chains `head|node(args).prop(args).flag@udf(args)` with arguments that
+are expressions, lambdas or lists; expressions canonical (= parser output); no statement starts with a token
+that would continue the statement before it – `program()` reads the formatted token sequence back to the
+identical program. The token view is layout-independent: white space, indentation, MultiLine and comments are
+not tokens (the parser attaches comments to nodes and `Equal` ignores them). -/
+theorem parse_format_program (p : Program) (h : progWF p = true) :
+    ∃ N, ∀ f, N ≤ f → parseStmts f (fmtProgram p) = .ok p :=
+  reads_program p h
+
+/-- formatting is stable at once at statement level: what is parsed back formats to the same tokens -/
+theorem format_program_stable (p q : Program) (h : progWF p = true)
+    (hq : ∀ N, ∃ f, N ≤ f ∧ parseStmts f (fmtProgram p) = .ok q) : fmtProgram q = fmtProgram p := by
+  obtain ⟨N, hN⟩ := parse_format_program p h
+  obtain ⟨f, hf, hqf⟩ := hq N
+  have := hN f hf
+  rw [this] at hqf
+  cases hqf
+  rfl
+
+/-- non-vacuity: `dbrp "db"."rp"  var t string  var x = stream|from().where(lambda: a OR TRUE)  x|f(['h', *], 1)@u().flag` -/
+example : progWF [
+    .dbrp "db" "rp",
+    .typeDecl "t" "string",
+    .decl "x" (.chain (.id "stream") [
+      { op := .pipe, name := "from", args := some [] },
+      { op := .dot, name := "where", args := some [.lambda (.bin .TokenOr (.id "a") (.lit (.bool true)) false)] }]),
+    .expr (.chain (.id "x") [
+      { op := .pipe, name := "f", args := some [.list [.str "h" false, .star], .expr (.lit (.num (.int 10 1)))] },
+      { op := .at, name := "u", args := some [] },
+      { op := .dot, name := "flag", args := none }])] = true := by decide
+
 /-! ## Fuel -/
 
 /-- the fixed fuel of `parseTokens` (2·tokens + 4) always suffices: the model parser is total -/
@@ -265,5 +300,12 @@ tree with its literals normalised. -/
 def lexer_decodes_formatted_stmt : Prop :=
   ∀ e : Expr, ∀ s, fmtStr e = .ok s → (∀ w, parseLambda s ≠ .na w) →
     (lex s.toList).bind decodeAll = .ok (fmtToks (canonize e))
+
+/-- the other half at statement level: everything `program()` returns formats to tokens that parse back to it
+(`progWF` is sufficient, not necessary: e.g. a parenthesised expression statement right after a typed var).
+Checked on every generated script by the correspondence (model parse = real parse of original AND of the
+formatted text), not proved. -/
+def program_image_roundtrip_stmt : Prop :=
+  ∀ f ts p, parseStmts f ts = .ok p → ∃ N, ∀ g, N ≤ g → parseStmts g (fmtProgram p) = .ok p
 
 end Kap.Props.C13
